@@ -299,7 +299,7 @@ fn component_ties(ctx: &mut Ctx) {
             let a: Vec<&str> = ans[0].split(' ').collect();
             let at = a.iter().zip(&obs).position(|(x, y)| x != y).unwrap_or(0);
             ctx.rep.violation("model", "zlibstream/window", &format!("ZlibStream (out_buffer.len, out_pos, read_pos) after call {}: implementation {}, model {}", at, obs.get(at).cloned().unwrap_or_default(), a.get(at).unwrap_or(&"?")),
-                J::obj().set("kind", J::s("zw")).set("line", J::s(&line[..line.len().min(20000)])));
+                J::obj().set("kind", J::s("zw")).set("line", J::s(&crate::util::shorten(&line, 20000, 0))));
         }
     }
     // UnfilteringBuffer
